@@ -585,14 +585,22 @@ func (c *Chunker) buildSections(doc *model.Document) []*Section {
 				sectionStack = append(sectionStack, newSection)
 			} else {
 				// Minor heading - include in current section's content
+				headingElem := ContentElement{
+					Type: model.ElementTypeHeading,
+					Text: heading.Text,
+					Page: pageIndex,
+					BBox: heading.BBox,
+				}
 				if len(sectionStack) > 0 {
 					currentSection := sectionStack[len(sectionStack)-1]
-					currentSection.Content = append(currentSection.Content, ContentElement{
-						Type: model.ElementTypeHeading,
-						Text: heading.Text,
-						Page: pageIndex,
-						BBox: heading.BBox,
-					})
+					currentSection.Content = append(currentSection.Content, headingElem)
+				} else {
+					// No major section is open yet: keep it with the unsectioned content
+					preambleContent = append(preambleContent, headingElem)
+					if preambleStartPage == 0 {
+						preambleStartPage = pageIndex
+					}
+					preambleEndPage = pageIndex
 				}
 			}
 		}
@@ -643,8 +651,8 @@ func (c *Chunker) buildSections(doc *model.Document) []*Section {
 		}
 	}
 
-	// Handle any remaining preamble content
-	if len(preambleContent) > 0 && len(sections) == 0 {
+	// Handle any remaining content that belongs to no major section
+	if len(preambleContent) > 0 {
 		preambleSection := &Section{
 			Title:     "",
 			Path:      nil,
